@@ -132,7 +132,7 @@ func (c *defaultClient) PinPath(ctx context.Context, path string, opts api.PinOp
 		"POST",
 		fmt.Sprintf(
 			"/pins%s?%s",
-			ipfspath.String(),
+			escapePath(ipfspath.String()),
 			query,
 		),
 		nil,
@@ -141,6 +141,13 @@ func (c *defaultClient) PinPath(ctx context.Context, path string, opts api.PinOp
 	)
 
 	return &pin, err
+}
+
+// escapePath escapes an IPFS path so that it can be used as part of a URL
+// path: characters such as '?', '#' or '%' would otherwise be interpreted
+// as URL syntax and the path would arrive truncated or altered.
+func escapePath(p string) string {
+	return (&url.URL{Path: p}).EscapedPath()
 }
 
 // UnpinPath allows to unpin an item by providing its IPFS path.
@@ -155,7 +162,7 @@ func (c *defaultClient) UnpinPath(ctx context.Context, p string) (*api.Pin, erro
 		return nil, err
 	}
 
-	err = c.do(ctx, "DELETE", fmt.Sprintf("/pins%s", ipfspath.String()), nil, nil, &pin)
+	err = c.do(ctx, "DELETE", fmt.Sprintf("/pins%s", escapePath(ipfspath.String())), nil, nil, &pin)
 	return &pin, err
 }
 
